@@ -1741,7 +1741,18 @@ class HasRounds(GenericHandler):
         assert isinstance(vary_rounds, int)
         lower = linear_to_native(default_rounds - vary_rounds, False)
         upper = linear_to_native(default_rounds + vary_rounds, True)
-        return cls._clip_to_desired_rounds(lower), cls._clip_to_desired_rounds(upper)
+
+        # clip to desired window, and to the hash's hard limits
+        # (the desired window may be open-ended, the hard limits never are exceeded)
+        def clip(value):
+            value = cls._clip_to_desired_rounds(value)
+            if value < cls.min_rounds:
+                return cls.min_rounds
+            if cls.max_rounds and value > cls.max_rounds:
+                return cls.max_rounds
+            return value
+
+        return clip(lower), clip(upper)
 
     def __init__(self, rounds=None, **kwds):
         super().__init__(**kwds)
